@@ -32,6 +32,7 @@ for c in $(git log --format=%h --grep='^fix:'); do
       *"expired entry without details"*) n=revert_plain_expired;;
       *"ExpireAll keeps expiration time"*) n=revert_expireall_restamp;;
       *"64-bit aligned on 32-bit platforms"*) n=revert_entry_alignment;;
+      *"not taken over on Restore"*) n=revert_restore_usage_counter;;
       *) n=revert_$c;;
     esac
   fi
